@@ -2,6 +2,7 @@ package props
 
 import (
 	"bytes"
+	"encoding/binary"
 	"encoding/hex"
 	"fmt"
 	"math"
@@ -25,6 +26,9 @@ type c17BigRow struct {
 	U64 uint64  `parquet:"u64,plain"`
 	F32 float32 `parquet:"f32,plain"`
 	F64 float64 `parquet:"f64,plain"`
+	// 16-byte big-endian values (boundsBE128, the seventh kernel pair of page_bounds_*.go): few
+	// distinct high halves, so that most comparisons are decided by the low half
+	B16 [16]byte `parquet:"b16,plain,uuid"`
 }
 
 type c17BigOptRow struct {
@@ -34,6 +38,7 @@ type c17BigOptRow struct {
 	U64 *uint64  `parquet:"u64,plain"`
 	F32 *float32 `parquet:"f32,plain"`
 	F64 *float64 `parquet:"f64,plain"`
+	B16 *[16]byte `parquet:"b16,plain,uuid"`
 }
 
 type c17Big struct {
@@ -46,7 +51,7 @@ type c17Big struct {
 }
 
 func (b *c17Big) desc() string {
-	return fmt.Sprintf("big-page rows=%d values=%s seed=%d pagebuf=%d v%d optional=%v stats=true (values: c17BigValue(rand.New(rand.NewSource(seed)), profile, i) per row, columns i32,i64,u32,u64,f32,f64 in that order)",
+	return fmt.Sprintf("big-page rows=%d values=%s seed=%d pagebuf=%d v%d optional=%v stats=true (values: c17BigValue(rand.New(rand.NewSource(seed)), profile, i) per row, columns i32,i64,u32,u64,f32,f64,b16 in that order; b16 = big-endian (bits>>62, bits*0x9E3779B97F4A7C15))",
 		b.n, b.profile, b.seed, b.pageBuf, b.version, b.optional)
 }
 
@@ -77,7 +82,10 @@ func c17BigColumns(bits uint64) c17BigRow {
 	if bits>>63 == 1 { // let the 32-bit columns see the top half too
 		lo = uint32(bits >> 32)
 	}
-	return c17BigRow{I32: int32(lo), I64: int64(bits), U32: lo, U64: bits, F32: math.Float32frombits(lo), F64: math.Float64frombits(bits)}
+	var b16 [16]byte
+	binary.BigEndian.PutUint64(b16[:8], bits>>62)
+	binary.BigEndian.PutUint64(b16[8:], bits*0x9E3779B97F4A7C15)
+	return c17BigRow{I32: int32(lo), I64: int64(bits), U32: lo, U64: bits, F32: math.Float32frombits(lo), F64: math.Float64frombits(bits), B16: b16}
 }
 
 func (b *c17Big) write() (file []byte, err error) {
@@ -105,7 +113,7 @@ func (b *c17Big) write() (file []byte, err error) {
 			for i := range rows {
 				v := c17BigColumns(c17BigValue(r, b.profile, i))
 				if r.Intn(16) != 0 {
-					rows[i] = c17BigOptRow{&v.I32, &v.I64, &v.U32, &v.U64, &v.F32, &v.F64}
+					rows[i] = c17BigOptRow{&v.I32, &v.I64, &v.U32, &v.U64, &v.F32, &v.F64, &v.B16}
 				}
 			}
 			w := parquet.NewGenericWriter[c17BigOptRow](out, opts...)
@@ -146,7 +154,7 @@ func c17BigCases(r *rand.Rand, thorough bool) []*c17Big {
 
 type c17BoundsCase struct {
 	id      string
-	typ     string // int32 int64 uint32 uint64 float double
+	typ     string // int32 int64 uint32 uint64 float double be128
 	n       int
 	profile string
 	seed    int64
@@ -197,6 +205,12 @@ func (c *c17BoundsCase) run() string {
 				v[i] = cols[i].F32
 			}
 			page = parquet.FloatType.NewPage(0, c.n, encoding.FloatValues(v))
+		case "be128":
+			v := make([]byte, 0, 16*c.n)
+			for i := range cols {
+				v = append(v, cols[i].B16[:]...)
+			}
+			page = parquet.FixedLenByteArrayType(16).NewPage(0, c.n, encoding.FixedLenByteArrayValues(v, 16))
 		default:
 			v := make([]float64, c.n)
 			for i := range v {
@@ -220,8 +234,12 @@ func c17BoundsCases(r *rand.Rand, thorough bool) []*c17BoundsCase {
 		lengths = append(lengths, 64225, 64226, 64227, 131072, 262143, 262144)
 	}
 	var out []*c17BoundsCase
-	for _, typ := range []string{"int32", "int64", "uint32", "uint64", "float", "double"} {
-		for _, n := range lengths {
+	for _, typ := range []string{"int32", "int64", "uint32", "uint64", "float", "double", "be128"} {
+		ls := lengths
+		if typ == "be128" { // no length switch in this kernel pair: short pages too
+			ls = append([]int{3, 4, 8, 9, 100, 1000}, lengths[:2]...)
+		}
+		for _, n := range ls {
 			for _, p := range []string{"wide", "boundary"} {
 				out = append(out, &c17BoundsCase{id: fmt.Sprintf("page-bounds/%s/%d/%s", typ, n, p), typ: typ, n: n, profile: p, seed: r.Int63()})
 			}
